@@ -681,6 +681,11 @@ def c07_scenarios(role, ver):
                                               pub(q=1, id=5)]))
     # S6 idle
     s.append(({}, []))
+    # S7 a sender parked on the window has just been notified by an acknowledgement and was not polled yet
+    s.append(({"max_send": 1, "_rm": 1}, [{"c": "send", "s": 1, "k": "q1", "id": 0}, {"c": "poll", "s": 1},
+                                           {"c": "send", "s": 2, "k": "q1", "id": 0}, {"c": "poll", "s": 2},
+                                           {"c": "send", "s": 3, "k": "q2", "id": 0}, {"c": "poll", "s": 3},
+                                           {"c": "in", "p": {"t": "puback", "id": 1}}]))
     return s
 
 
@@ -724,8 +729,17 @@ def c07_decode_for(role, ver):
         cmds = [handshake(role, ver, connack=ck, connect=ck)]
         cmds += base[:i]
         cause = causes[c - 1]
+        if variant == "stalled":
+            # the peer does not read: a graceful shutdown cannot flush and lingers; senders are polled
+            # and a new send is attempted while it does
+            if s == 5:
+                return None, None
+            cmds.append({"c": "cap", "n": 0})
         # the slow-Stop cause completes "the newest gate": resolved by rank at run time
         cmds += [dict(x, j=99) if x.get("c") == "complete" and x.get("j") == 9 else x for x in cause]
+        if variant == "stalled":
+            cmds += [{"c": "pollall"}, {"c": "send", "s": 40, "k": "q1", "id": 0}, {"c": "poll", "s": 40},
+                     {"c": "send", "s": 41, "k": "ready", "id": 0}, {"c": "poll", "s": 41}]
         cmds += [{"c": "cap"}, {"c": "pollall"}, {"c": "drain", "read": "all"}, {"c": "pollall"}]
         return cfg, cmds
     return dec
@@ -737,19 +751,19 @@ def c07_configs(tier):
         for role in ("server", "client"):
             ns = len(c07_scenarios(role, ver))
             nc = len(c07_causes(role, ver))
-            cs.append((f"v{ver}{role[0]}", FAULT_CFG.format(ns=ns, nc=nc, maxcut=6), "Faults",
-                       c07_decode_for(role, ver), [None]))
+            cs.append((f"v{ver}{role[0]}", FAULT_CFG.format(ns=ns, nc=nc, maxcut=7), "Faults",
+                       c07_decode_for(role, ver), [None, "stalled"]))
     return cs
 
 
 reg(dict(
     name="teardown", judge="ProtoJudge", configs=c07_configs, signature=inb_signature,
     level={"C07": "fault_enumeration"}, quota=400, quota_thorough=100000,
-    rule="TLC enumerates every triple <scenario, step index, cause>: 6 base scenarios (gated publishes in flight, streamed "
+    rule="TLC enumerates every triple <scenario, step index, cause>: 7 base scenarios (gated publishes in flight, streamed "
          "payload half received with a waiting reader, sends awaiting acks, senders parked on the window, write "
-         "back-pressure active, idle) x every prefix x 11-12 causes (peer close, read error, write error, undecodable "
+         "back-pressure active, idle, parked sender notified by an ack but not yet polled) x every prefix x 11-12 causes (peer close, read error, write error, undecodable "
          "bytes, protocol violation, publish / protocol handler error, close, force_close, failing and slow Stop "
-         "handler, peer gone inside a frame) x v3/v5 x server/client; the epilogue releases the transport, polls every "
+         "handler, peer gone inside a frame) x v3/v5 x server/client x {peer reading, peer stalled: senders polled and new sends attempted while a graceful shutdown lingers}; the epilogue releases the transport, polls every "
          "send future and opens every gate; ProtoMon judges: exactly one Stop of the cause's class, no handler cancelled "
          "before it was handled, no truncated payload read as complete, no send future left pending, connection task completed",
     assumptions=[
